@@ -145,6 +145,15 @@ def gen(seed, index, tier):
                         {"op": "meta", "dir": d, "kind": kind, "name": nm, "v": 10 + b % 80, "remove": False},
                         {"op": "advance", "dt": (L + 0.5) if L > 0 else 0.0},
                         {"op": "list", "dir": d, "proto": rng.choice(PROTOS)}]
+        elif r < 0.07 + 0.12 + 0.06 + 0.05 and L > 1:
+            # the lifetime is lowered (or switched off) while cache files written under the longer one are around
+            d = rng.choice(listable)
+            newL = rng.choice([0, 0, 1, max(1, L // 10)])
+            ops += [{"op": "list", "dir": d, "proto": rng.choice(PROTOS)}, mutation(),
+                    {"op": "advance", "dt": min(L - 0.5, newL + rng.choice([0.5, 2.0, 5.0]))},
+                    {"op": "reconf", "L": newL},
+                    {"op": "list", "dir": d, "proto": rng.choice(PROTOS)},
+                    {"op": "reconf", "L": L}]
         elif r < 0.55:
             o = {"op": "list", "dir": rng.choice(listable), "proto": rng.choice(PROTOS)}
             r2 = rng.random()
@@ -273,11 +282,18 @@ def execute(sc, tape=None):
         with run:
             run.fs.watch_open = cachefile
             snap(run.sim.now)
+            Lcur = L
             for op in sc["ops"]:
                 k = op["op"]
                 if k == "advance":
                     run.advance(op["dt"])
                     abstract.append("a")
+                elif k == "reconf":
+                    # the lifetime option of the live configuration is changed: from now on listings are judged by it
+                    Lcur = op["L"]
+                    run.config.set("handlers.dir.DirHandler", "cachetime", str(Lcur))
+                    counters["lifetime_reconfigured"] = counters.get("lifetime_reconfigured", 0) + 1
+                    abstract.append("c")
                 elif k == "list":
                     sel = common.selector_of(op["dir"])
                     req, tls = proto.make_request(op["proto"], sel)
@@ -316,7 +332,7 @@ def execute(sc, tape=None):
                         counters["late_request_line"] = counters.get("late_request_line", 0) + 1
                     modes = [m for (_, m, _) in run.fs.open_sizes[n0:]]
                     listings.append((run.sim.now, op["dir"], op["proto"], bytes(c.s2c), len(states),
-                                     "r" in modes, "w" in modes, bool(flt is not None and flt.fired)))
+                                     "r" in modes, "w" in modes, bool(flt is not None and flt.fired), Lcur))
                     # a tiny amount of time passes per request so that histories are totally ordered
                     run.advance(0.001)
                 else:
@@ -357,7 +373,7 @@ def execute(sc, tape=None):
 
         viol = None
         writer_proto = {}
-        for (now, d, p, resp, nst, opened_r, opened_w, scan_failed) in listings:
+        for (now, d, p, resp, nst, opened_r, opened_w, scan_failed, Lk) in listings:
             got = proto.normalize(p, resp)
             if scan_failed and not proto.is_success(p, got):
                 # the directory could not be read: an error reply is a right answer (a stale listing is not)
@@ -368,7 +384,7 @@ def execute(sc, tape=None):
             for k in range(nst):
                 t_k = states[k][0]
                 t_next = states[k + 1][0] if k + 1 < nst else float("inf")
-                if k == cur or (L > 0 and t_next > now - L and t_k <= now):
+                if k == cur or (Lk > 0 and t_next > now - Lk and t_k <= now):
                     cands.append(k)
             match = []
             for k in sorted(cands, reverse=True):
@@ -384,7 +400,7 @@ def execute(sc, tape=None):
                 writer_proto[d] = p
             if len(cands) > 1:
                 counters["stale_state_was_candidate"] = counters.get("stale_state_was_candidate", 0) + 1
-            if L > 0 and not opened_r and opened_w and nst > 0:
+            if Lk > 0 and not opened_r and opened_w and nst > 0:
                 counters["expired_entry_not_used"] = counters.get("expired_entry_not_used", 0) + 1
             abstract.append("l%s%d" % ("h" if hit else "m", min(len(cands), 3)))
             if not match and (viol is None or viol["signature"]["class"] == KNOWN_CLASS):
@@ -404,9 +420,9 @@ def execute(sc, tape=None):
                     continue
                 viol = {"oracle": "listing-reflects-recent-state",
                         "signature": {"oracle": "listing-reflects-recent-state", "class": cls,
-                                      "lifetime0": L == 0, "hit": bool(hit)},
+                                      "lifetime0": Lk == 0, "hit": bool(hit)},
                         "detail": "now=%.3f L=%s dir=%r proto=%s candidates=%r older_match=%r stale_by=%r got=%r want=%r"
-                                  % (now - sched.EPOCH, L, d, p, cands, older, age, common.short(got, 160),
+                                  % (now - sched.EPOCH, Lk, d, p, cands, older, age, common.short(got, 160),
                                      common.short(ref(cur, d, p, now), 160))}
         shape = None
         if counters.get("cache_hit_served") and counters.get("mutations"):
